@@ -48,6 +48,18 @@ def main():
                 p2 = real.GLRParser(mk(), tables=real.TABLES[item.get("tables", "LALR")])
                 rec["t1"], rec["t2"] = obs(p1), obs(p2)
                 rec["forests"], rec["forests2"] = [], []
+                # consume_input off: one forest over SEVERAL accepted heads (every prefix that is a sentence), in index order as well
+                # (round-5 seeded change C16-h: the accepted heads went through a set before their links were merged)
+                q1 = real.GLRParser(p1.grammar, tables=real.TABLES[item.get("tables", "LALR")], consume_input=False)
+                q2 = real.GLRParser(p2.grammar, tables=real.TABLES[item.get("tables", "LALR")], consume_input=False)
+                for p, key in ((q1, "forests"), (q2, "forests2")):
+                    for w in item.get("inputs", []):
+                        try:
+                            f = p.parse(w)
+                            n = len(f)
+                            rec[key].append([w + " [prefixes]", min(n, 10**6), [f[i].to_str() for i in range(min(n, 12))]])
+                        except Exception as e:  # noqa: BLE001
+                            rec[key].append([w + " [prefixes]", -1, [type(e).__name__]])
                 for p, key in ((p1, "forests"), (p2, "forests2")):
                     for w in item.get("inputs", []):
                         try:
